@@ -150,4 +150,17 @@ REFACTORS = [
      "            if *local == id || delegates.iter().any(|d| *d == id) {\n                continue;\n            }", 1),
     # S45: quorum's selection loop over the entries instead of the keys
     ("s45", R + "git/canonical.rs", "        for head in candidates.keys() {", "        for (head, _) in candidates.iter() {", 1),
+    # S46: bool merge as a disjunction
+    ("s46", "crates/radicle-crdt/src/lib.rs", "        match (&self, other) {\n            (false, true) => *self = true,\n            (true, false) => *self = true,\n            (false, false) | (true, true) => {}\n        }",
+     "        *self = *self || other;", 1),
+    # S47: Max::merge with the comparison turned around
+    ("s47", "crates/radicle-crdt/src/ord.rs", "        if other.0 > self.0 {\n            self.0 = other.0;\n        }", "        if self.0 < other.0 {\n            self.0 = other.0;\n        }", 1),
+    # S48: Option merge with the no-op arms joined
+    ("s48", "crates/radicle-crdt/src/lib.rs", "            (Some(_), None) => {}\n            (None, None) => {}", "            (Some(_), None) | (None, None) => {}", 1),
+    # S49: Redactable merge with the inner test hoisted into a guard
+    ("s49", "crates/radicle-crdt/src/redactable.rs", "            (Self::Present(a), Self::Present(b)) => {\n                if a != &b {\n                    *self = Self::Redacted;\n                }\n            }",
+     "            (Self::Present(a), Self::Present(b)) if a != &b => {\n                *self = Self::Redacted;\n            }\n            (Self::Present(_), Self::Present(_)) => {}", 1),
+    # S50: LWWReg::set with the greater-clock case first
+    ("s50", "crates/radicle-crdt/src/lwwreg.rs", "        if clock == self.clock {\n            self.value.merge(value);\n        } else if clock > self.clock {\n            self.clock.merge(clock);\n            self.value = value;\n        }",
+     "        if clock > self.clock {\n            self.clock = clock;\n            self.value = value;\n        } else if clock == self.clock {\n            self.value.merge(value);\n        }", 1),
 ]
